@@ -46,7 +46,33 @@ fn gen_case(g: &mut Gen, peers: u64, len: usize) -> Vec<String> {
     ops
 }
 
+/// counter families of the responder: connection storms on one host around `max_connections_per_ip` (unchecked `+= 1`,
+/// `saturating_sub` on the way down, disconnects of peers that were never accepted), error storms around
+/// `max_error_count`, and re-connects of banned peers
+fn gen_counter_case(g: &mut Gen, family: u64) -> Vec<String> {
+    let mut ops = vec![format!("rcfg {} {} 13-764824073", g.rng.range(0, 2), g.rng.range(1, 4))];
+    match family {
+        0 => {
+            for _ in 0..g.rng.range(10, 60) {
+                let p = g.rng.below(6);   // hosts 0 and 1
+                ops.push(match g.rng.below(7) { 0..=3 => format!("connected {p}"), 4..=5 => format!("disconnected {p}"), _ => "hk".into() });
+            }
+        }
+        _ => {
+            for p in 0..3u64 { ops.push(format!("connected {p}")); ops.push(format!("recv {p} hs.propose:13-764824073")); }
+            for _ in 0..g.rng.range(10, 60) {
+                let p = g.rng.below(4);
+                ops.push(match g.rng.below(8) {
+                    0..=3 => format!("error {p}"), 4 => "hk".into(), 5 => format!("disconnected {p}"), 6 => format!("connected {p}"), _ => format!("ban {p}"),
+                });
+            }
+        }
+    }
+    ops
+}
+
 pub fn generate(g: &mut Gen) {
+    for i in 0..(g.cases / 10).max(6) { let ops = gen_counter_case(g, i as u64 % 2); g.case(ops); }
     for i in 0..g.cases {
         let (peers, len) = match i % 3 { 0 => (3, g.rng.range(5, 30)), 1 => (8, g.rng.range(20, 120)), _ => (12, g.rng.range(100, 300)) };
         let ops = gen_case(g, peers, len as usize);
